@@ -270,7 +270,8 @@ CHECKS["C20"] = dict(
          "before-field; the ordered groups of a rand set put a before-field in a strictly earlier group (chains, lists), are "
          "disjoint and within the rand set; neither end of a declared pair is dropped by the restriction to the rand set, so a "
          "declared pair inside one rand set is always separated (unconditional form); on acyclic declarations (a rank decreases "
-         "along every pair) the level computation is total - it runs out of neither ready fields nor fuel (Rand/OrderTotal.v); "
+         "along every pair) the level computation is total - it runs out of neither ready fields nor fuel (Rand/OrderTotal.v); transitively ordered fields are separated as well and "
+         "a cyclic declaration never yields groups; "
          "for the first-solved field a drawn pattern equal to a feasible value is kept and pins "
          "that value (so with feasible = inferred range its distribution is that of the draw, whatever accompanies it). Tie: six "
          "templates randomised 360/2400 times: normal return, swizzle order in the solver transcript, histograms of the "
